@@ -251,17 +251,27 @@ macro_rules! adapters {
             fn enet(c: &Case, obs: &mut Obs, k: &mut Knobs) {
                 const P: &str = "ElasticNetValidParams";
                 const T: &str = "ElasticNet";
+                let huge = k.huge_u64();
                 let valid = match ElasticNet::<F>::params()
                     .penalty(F::of([0.1, 1.0, 0.0, 0.01][k.pick(4)]))
                     .l1_ratio(F::of([0.5, 0.0, 1.0, 0.25][k.pick(4)]))
                     .with_intercept(k.flag())
-                    .max_iterations(1 + k.pick(200) as u32)
+                    .max_iterations(huge.map(|h| h.min(u32::MAX as u64) as u32).unwrap_or(1 + k.pick(200) as u32))
                     .tolerance(F::of([1e-4, 1e-2, 0.0][k.pick(3)]))
                     .check()
                 {
                     Ok(v) => v,
                     Err(_) => return obs.skip("params_invalid"),
                 };
+                if huge.is_some() {
+                    obs.class("huge_integer_setting");
+                    obs.class(P);
+                    for (fmt, back) in roundtrip(obs, P, &valid, STABLE) {
+                        eq_check(obs, P, fmt, &valid, &back);
+                        must(obs, P, fmt, "max_iterations", valid.max_iterations() == back.max_iterations());
+                    }
+                    return;
+                }
                 let design = enet_design(c, k, obs);
                 let rows = design.len();
                 let ds = Dataset::new(mat::<F>(&design), y1(c).slice(ndarray::s![..rows]).to_owned());
@@ -387,10 +397,11 @@ macro_rules! adapters {
                 const T: &str = "FittedLogisticRegression";
                 let p = ncols(c);
                 let intercept = k.flag();
+                let huge = k.huge_u64();
                 let mut params = LogisticRegression::<F>::default()
                     .alpha(F::of(if k.rare() { BAD[k.pick(BAD.len())] } else { [1.0, 0.1, 0.0, -0.0][k.pick(4)] }))
                     .with_intercept(intercept)
-                    .max_iterations(1 + k.pick(40) as u64)
+                    .max_iterations(huge.unwrap_or(1 + k.pick(40) as u64))
                     .gradient_tolerance(F::of(if k.rare() { BAD0[k.pick(BAD0.len())] } else { [1e-3, 1e-1][k.pick(2)] }));
                 match k.pick(4) {
                     0 | 1 => {}
@@ -412,6 +423,20 @@ macro_rules! adapters {
                 let want_verdict = verdict(params.check_ref());
                 obs.class_if(want_verdict.is_ok(), "params_valid");
                 obs.class_if(want_verdict.is_err(), "params_invalid");
+                if huge.is_some() {
+                    // an iteration limit nobody can wait for: the parameter set itself is round-tripped, no fit
+                    obs.class("huge_integer_setting");
+                    for (fmt, back) in roundtrip(obs, P, &params, STABLE) {
+                        eq_check(obs, P, fmt, &params, &back);
+                        must(obs, P, fmt, "check_ref-verdict", verdict(back.check_ref()) == want_verdict);
+                    }
+                    if let Ok(valid) = params.check_ref() {
+                        for (fmt, back) in roundtrip(obs, "LogisticRegressionValidParams", valid, STABLE) {
+                            eq_check(obs, "LogisticRegressionValidParams", fmt, valid, &back);
+                        }
+                    }
+                    return;
+                }
                 let want_fit = fit_outcome(|| params.fit(&ds));
                 for (fmt, back) in roundtrip(obs, P, &params, STABLE) {
                     eq_check(obs, P, fmt, &params, &back);
@@ -467,10 +492,11 @@ macro_rules! adapters {
                 let p = ncols(c);
                 let intercept = k.flag();
                 let nclass = 2 + k.pick(2);
+                let huge = k.huge_u64();
                 let mut params = MultiLogisticRegression::<F>::default()
                     .alpha(F::of(if k.rare() { BAD[k.pick(BAD.len())] } else { [1.0, 0.1, 0.0, -0.0][k.pick(4)] }))
                     .with_intercept(intercept)
-                    .max_iterations(1 + k.pick(40) as u64)
+                    .max_iterations(huge.unwrap_or(1 + k.pick(40) as u64))
                     .gradient_tolerance(F::of(if k.rare() { BAD0[k.pick(BAD0.len())] } else { [1e-3, 1e-1][k.pick(2)] }));
                 if k.pick(3) == 2 {
                     let init = Array2::from_shape_fn((p + intercept as usize, nclass), |(i, j)| F::of((i + 2 * j) as f64 * 0.125 - 0.25));
@@ -486,6 +512,14 @@ macro_rules! adapters {
                 let want_verdict = verdict(params.check_ref());
                 obs.class_if(want_verdict.is_ok(), "params_valid");
                 obs.class_if(want_verdict.is_err(), "params_invalid");
+                if huge.is_some() {
+                    obs.class("huge_integer_setting");
+                    for (fmt, back) in roundtrip(obs, P, &params, STABLE) {
+                        eq_check(obs, P, fmt, &params, &back);
+                        must(obs, P, fmt, "check_ref-verdict", verdict(back.check_ref()) == want_verdict);
+                    }
+                    return;
+                }
                 let want_fit = fit_outcome(|| params.fit(&ds));
                 for (fmt, back) in roundtrip(obs, P, &params, STABLE) {
                     eq_check(obs, P, fmt, &params, &back);
